@@ -2,8 +2,8 @@ package main
 
 import (
 	"fmt"
-	"os"
 	"go/types"
+	"os"
 	"sort"
 	"strings"
 
@@ -55,7 +55,11 @@ func verifyFunctionH(prog *Program, ctr *Contracts, key string, secs int) *FuncR
 		if len(cands) == 0 {
 			return res
 		}
-		rs := solveAll(cands, secs, false, 5, "")
+		csecs := 4
+		if secs < csecs {
+			csecs = secs
+		}
+		rs := solveAll(cands, csecs, false, 8, "")
 		// undecided candidates get a second, longer attempt before they are dropped
 		var again []*Oblig
 		for _, o := range cands {
@@ -63,8 +67,8 @@ func verifyFunctionH(prog *Program, ctr *Contracts, key string, secs int) *FuncR
 				again = append(again, o)
 			}
 		}
-		if len(again) > 0 && len(again) <= 6 {
-			for o, r := range solveAll(again, secs*3, false, 6, "") {
+		if len(again) > 0 && len(again) <= 8 {
+			for o, r := range solveAll(again, secs*2, false, 8, "") {
 				if r.Status == "unsat" || r.Status == "sat" {
 					rs[o] = r
 				}
